@@ -4,8 +4,8 @@ from common import *
 import cachelib
 
 PID = 'C16'
-TARGETS = ['Properties/C16.vo', 'Bridge/CacheBridge.vo']
-KERNELS = ['G14_cache']
+TARGETS = ['Properties/C16.vo', 'Bridge/CacheBridge.vo', 'Bridge/CodegenBridge.vo']
+KERNELS = ['G14_cache', 'G11_codegen']
 PROP_FILE = 'Properties/C16.v'
 ASSUMPTIONS = ["partial: atomicity of os.replace, the interpreter's import and bytecode rules and real kernel scheduling are assumptions; "
                "interleavings are explored at the granularity of the file operations of bisturi.codegen (interposed from the harness process)"]
